@@ -3,6 +3,7 @@
 #ifndef TETL_SET_STATIC_SET_HPP
 #define TETL_SET_STATIC_SET_HPP
 
+#include <etl/_algorithm/equal_range.hpp>
 #include <etl/_algorithm/lexicographical_compare.hpp>
 #include <etl/_algorithm/lower_bound.hpp>
 #include <etl/_algorithm/rotate.hpp>
@@ -388,7 +389,7 @@ public:
     /// first element that is not less than key and another pointing to the
     /// first element greater than key. Alternatively, the first iterator may be
     /// obtained with lower_bound(), and the second with upper_bound().
-    [[nodiscard]] constexpr auto equal_range(key_type const& key) -> iterator
+    [[nodiscard]] constexpr auto equal_range(key_type const& key) -> pair<iterator, iterator>
     {
         return etl::equal_range(begin(), end(), key, key_compare{});
     }
@@ -398,19 +399,7 @@ public:
     /// first element that is not less than key and another pointing to the
     /// first element greater than key. Alternatively, the first iterator may be
     /// obtained with lower_bound(), and the second with upper_bound().
-    [[nodiscard]] constexpr auto equal_range(key_type const& key) const -> const_iterator
-    {
-        return etl::equal_range(begin(), end(), key, key_compare{});
-    }
-
-    /// \brief Returns a range containing all elements with the given key in the
-    /// container. The range is defined by two iterators, one pointing to the
-    /// first element that is not less than key and another pointing to the
-    /// first element greater than key. Alternatively, the first iterator may be
-    /// obtained with lower_bound(), and the second with upper_bound().
-    template <typename K>
-        requires(detail::is_transparent_v<key_compare>)
-    [[nodiscard]] constexpr auto equal_range(K const& key) -> iterator
+    [[nodiscard]] constexpr auto equal_range(key_type const& key) const -> pair<const_iterator, const_iterator>
     {
         return etl::equal_range(begin(), end(), key, key_compare{});
     }
@@ -422,7 +411,19 @@ public:
     /// obtained with lower_bound(), and the second with upper_bound().
     template <typename K>
         requires(detail::is_transparent_v<key_compare>)
-    [[nodiscard]] constexpr auto equal_range(K const& key) const -> const_iterator
+    [[nodiscard]] constexpr auto equal_range(K const& key) -> pair<iterator, iterator>
+    {
+        return etl::equal_range(begin(), end(), key, key_compare{});
+    }
+
+    /// \brief Returns a range containing all elements with the given key in the
+    /// container. The range is defined by two iterators, one pointing to the
+    /// first element that is not less than key and another pointing to the
+    /// first element greater than key. Alternatively, the first iterator may be
+    /// obtained with lower_bound(), and the second with upper_bound().
+    template <typename K>
+        requires(detail::is_transparent_v<key_compare>)
+    [[nodiscard]] constexpr auto equal_range(K const& key) const -> pair<const_iterator, const_iterator>
     {
         return etl::equal_range(begin(), end(), key, key_compare{});
     }
